@@ -19,6 +19,8 @@ import (
 	"errors"
 	"runtime"
 	"sync"
+
+	"github.com/bufbuild/buf/private/pkg/verifhook"
 )
 
 var (
@@ -101,7 +103,9 @@ func Parallelize(ctx context.Context, jobs []func(context.Context) error, option
 			default:
 				job := job
 				wg.Add(1)
+				verifhook.Hit("thread.parallelize.dispatch")
 				go func() {
+					verifhook.Hit("thread.parallelize.job_start")
 					if err := job(ctx); err != nil {
 						addError(err)
 						if cancel != nil {
